@@ -5,8 +5,11 @@ over the rounds.
 -/
 namespace GV.Batch
 
+/-- The back-off sleep did not complete: the batch context is done (`sleepCut`), or the own context
+of every call about to be retried is (`sleepLeft`). Either way the retry loop ends there. -/
 def isSleepCut : Event → Bool
   | .sleepCut _ => true
+  | .sleepLeft _ => true
   | _ => false
 
 def isSleep : Event → Bool
@@ -79,9 +82,131 @@ theorem loop_cons {b0 : List Nat} {rd : Round} {rest : List Round} {r : Nat} {ba
             · simp only [Outcome.ok.injEq] at h
               exact Or.inl ⟨[.sleepCut (Gen.Backoff.sleepFor st.backoff)],
                 by simp [← h, queueEvents], by simp [isSleepCut], Or.inr (Or.inr (by simp))⟩
-            · exact Or.inr ⟨hex.1, hex.2, _, _, [.sleep (Gen.Backoff.sleepFor st.backoff)],
-                by simp [isSleep], by simpa [queueEvents] using h⟩
+            · split at h
+              · simp only [Outcome.ok.injEq] at h
+                exact Or.inl ⟨[.sleepLeft (Gen.Backoff.sleepFor st.backoff)],
+                  by simp [← h, queueEvents], by simp [isSleepCut], Or.inr (Or.inr (by simp))⟩
+              · exact Or.inr ⟨hex.1, hex.2, _, _, [.sleep (Gen.Backoff.sleepFor st.backoff)],
+                  by simp [isSleep], by simpa [queueEvents] using h⟩
         · exact Or.inr ⟨hex.1, hex.2, _, _, [], by simp, by simpa [queueEvents] using h⟩
+
+/-! ### the back-off sleep: what ends it -/
+
+theorem backoffStart_ne_zero : Gen.Backoff.backoffStart ≠ 0 := by decide
+
+theorem beforeWait_ne_zero (b : Int) : Gen.Backoff.beforeWait b ≠ 0 := by
+  unfold Gen.Backoff.beforeWait
+  split
+  · exact backoffStart_ne_zero
+  · assumption
+
+theorem nextBackoff_ne_zero {b : Int} (h : b ≠ 0) : Gen.Backoff.nextBackoff b ≠ 0 := by
+  unfold Gen.Backoff.nextBackoff
+  split
+  · omega
+  · split <;> omega
+
+/-- One pass that reaches a back-off sleep of non-zero length (some call is to be retried, the
+batch context is not seen done by the wait, a back-off is due): the sleep is cut by the batch
+context, or left because the own context of every call about to be retried is done — both end
+`SendBatch` with `res` as it stands — or it completes and the next pass starts. -/
+theorem loop_cons_sleep {b0 : List Nat} {rd : Round} {rest : List Round} {r : Nat} {batch : List Nat}
+    {st : St} {R : Result} {a : Acc} (h : loop b0 (rd :: rest) r batch st = .ok R)
+    (hany : batch.any (fun c => !locOk rd c && !ownGone rd c) = false)
+    (ha : waitAll b0 rd.ans (cancelPos rd.cancel) (groups rd (liveCalls rd batch)) 0
+        (acc0 (afterLocate b0 rd batch st)) = .ok a)
+    (hret : a.retries ≠ []) (hnd : ctxDoneAfterWait rd.cancel = false)
+    (hbk : (a.needBackoff || decide (st.immediate > 1)) = true) (hbo : st.backoff ≠ 0) :
+    (rd.cancel = .sleep ∧
+      R = ⟨a.res, a.allOK, st.events ++ queueEvents r rd (liveCalls rd batch) ++
+            [.sleepCut (Gen.Backoff.sleepFor st.backoff)], a.interrupted⟩) ∨
+    (rd.cancel ≠ .sleep ∧ a.retries.all rd.gaveUp = true ∧
+      R = ⟨a.res, a.allOK, st.events ++ queueEvents r rd (liveCalls rd batch) ++
+            [.sleepLeft (Gen.Backoff.sleepFor st.backoff)], a.interrupted⟩) ∨
+    (rd.cancel ≠ .sleep ∧ a.retries.all rd.gaveUp = false ∧ ∃ imm,
+      loop b0 rest (r + 1) a.retries
+        ⟨a.res, !a.unretry, a.unretry, Gen.Backoff.nextBackoff st.backoff, imm,
+         st.events ++ queueEvents r rd (liveCalls rd batch) ++
+           [.sleep (Gen.Backoff.sleepFor st.backoff)]⟩ = .ok R) := by
+  simp only [acc0] at ha
+  have hne : a.retries.isEmpty = false := by
+    cases hr : a.retries with
+    | nil => exact absurd hr hret
+    | cons x xs => rfl
+  simp only [loop, hany, Bool.false_eq_true, if_false, afterLocate_events, afterLocate_immediate,
+    afterLocate_backoff, ha, hne, hnd, Bool.or_self, hbo] at h
+  simp only [Bool.or_eq_true, decide_eq_true_eq] at hbk
+  split at h
+  · by_cases hs : rd.cancel = .sleep
+    · simp only [hs, if_true, Outcome.ok.injEq] at h
+      exact Or.inl ⟨hs, by simp [← h, queueEvents]⟩
+    · simp only [hs, if_false] at h
+      by_cases hg : a.retries.all rd.gaveUp = true
+      · simp only [hg, if_true, Outcome.ok.injEq] at h
+        exact Or.inr (Or.inl ⟨hs, hg, by simp [← h, queueEvents]⟩)
+      · simp only [hg, Bool.false_eq_true, if_false] at h
+        exact Or.inr (Or.inr ⟨hs, by simpa using hg, _, by simpa [queueEvents] using h⟩)
+  · rename_i hx
+    simp only [Bool.or_eq_true] at hx
+    rcases hbk with h1 | h1
+    · exact (hx (Or.inl h1)).elim
+    · exact (hx (Or.inr (decide_eq_true h1))).elim
+
+/-- One pass after which some call is to be retried and the batch context was not seen done by the
+wait: the loop ends inside the back-off sleep, or goes on — with a non-zero back-off if it had one,
+and, if the pass had to back off for a non-zero time, only because some call about to be retried
+has not given up. -/
+theorem loop_cons_next {b0 : List Nat} {rd : Round} {rest : List Round} {r : Nat} {batch : List Nat}
+    {st : St} {R : Result} {a : Acc} (h : loop b0 (rd :: rest) r batch st = .ok R)
+    (hany : batch.any (fun c => !locOk rd c && !ownGone rd c) = false)
+    (ha : waitAll b0 rd.ans (cancelPos rd.cancel) (groups rd (liveCalls rd batch)) 0
+        (acc0 (afterLocate b0 rd batch st)) = .ok a)
+    (hret : a.retries ≠ []) (hnd : ctxDoneAfterWait rd.cancel = false) :
+    (∃ tail, R = ⟨a.res, a.allOK, st.events ++ queueEvents r rd (liveCalls rd batch) ++ tail,
+          a.interrupted⟩ ∧ tail ≠ [] ∧ ∀ e ∈ tail, isSleepCut e = true) ∨
+    (∃ bo imm tail, (∀ e ∈ tail, isSleep e = true) ∧
+      loop b0 rest (r + 1) a.retries
+        ⟨a.res, !a.unretry, a.unretry, bo, imm,
+         st.events ++ queueEvents r rd (liveCalls rd batch) ++ tail⟩ = .ok R ∧
+      (st.backoff ≠ 0 → bo ≠ 0) ∧
+      (a.needBackoff = true → st.backoff ≠ 0 → a.retries.all rd.gaveUp = false)) := by
+  by_cases hbk : (a.needBackoff || decide (st.immediate > 1)) = true
+  · by_cases hbo : st.backoff = 0
+    · -- sleepAndIncreaseBackoff returns at once
+      simp only [acc0] at ha
+      have hne : a.retries.isEmpty = false := by
+        cases hr : a.retries with
+        | nil => exact absurd hr hret
+        | cons x xs => rfl
+      simp only [loop, hany, Bool.false_eq_true, if_false, afterLocate_events, afterLocate_immediate,
+        afterLocate_backoff, ha, hne, hnd, Bool.or_self, hbo, if_true] at h
+      split at h
+      · exact Or.inr ⟨_, _, [], by simp, by simpa [queueEvents] using h,
+          fun _ => beforeWait_ne_zero _, fun _ hz => absurd hbo hz⟩
+      · exact Or.inr ⟨_, _, [], by simp, by simpa [queueEvents] using h,
+          fun hz => absurd hbo hz, fun _ hz => absurd hbo hz⟩
+    · rcases loop_cons_sleep h hany ha hret hnd hbk hbo with ⟨_, rfl⟩ | ⟨_, _, rfl⟩ | ⟨_, hg, imm, hrec⟩
+      · exact Or.inl ⟨_, rfl, by simp, by simp [isSleepCut]⟩
+      · exact Or.inl ⟨_, rfl, by simp, by simp [isSleepCut]⟩
+      · exact Or.inr ⟨_, imm, [.sleep (Gen.Backoff.sleepFor st.backoff)], by simp [isSleep], hrec,
+          fun hz => nextBackoff_ne_zero hz, fun _ _ => hg⟩
+  · -- immediate retry
+    have hnb : a.needBackoff = false := by
+      cases hx : a.needBackoff
+      · rfl
+      · simp [hx] at hbk
+    simp only [acc0] at ha
+    have hne : a.retries.isEmpty = false := by
+      cases hr : a.retries with
+      | nil => exact absurd hr hret
+      | cons x xs => rfl
+    have hi : ¬ (st.immediate > 1) := by
+      intro hi
+      simp [hi] at hbk
+    simp only [loop, hany, Bool.false_eq_true, if_false, afterLocate_events, afterLocate_immediate,
+      afterLocate_backoff, ha, hne, hnd, Bool.or_self, hnb, hi, decide_false] at h
+    exact Or.inr ⟨_, _, [], by simp, by simpa [queueEvents] using h, fun hz => hz,
+      fun hx => by rw [hnb] at hx; cases hx⟩
 
 /-- calls of a round, in wait order, are exactly the round's batch -/
 theorem mem_flat_iff {rd : Round} {batch : List Nat} {pre post : List Nat}
